@@ -24,6 +24,12 @@ PROP = dict(
                     "argument of 0..8 bytes, optional second argument, trailing separator, leading blanks), each dispatched contiguous "
                     "and in every cut into 2 and 3 fragments, variants with empty fragments and 30 PRNG lists up to 8 fragments: "
                     "handler called, return value and ev.id equal the contiguous run, which must reach the handler of the word.  "
+                    "mpt_message_property on 600 (thorough 20k) PRNG texts of 1..4 name=value arguments (separators space/comma/NUL/newline, "
+                    "arguments without =, quoted values, handler-refused names, one over-long argument) with a fixed caller sequence "
+                    "(call; on success skip the separator; on refusal call again, then step over the argument with argv + read): after "
+                    "every step return code, handler arguments, remaining length and all remaining bytes equal the contiguous run for "
+                    "every cut into 2 and 3 fragments, variants with empty fragments and PRNG lists; contiguous run checked against the "
+                    "flat meaning of quote-free texts.  "
                     "C++ leg: graphic::target() on 203 (thorough 2755) layout:graph:world[:dim] addresses against a graphic with one "
                     "layout, two graphs, two worlds each, called twice per message, every cut into 2..5 fragments (empty ones "
                     "included) + 20 PRNG lists: return codes, destination, remaining length equal the contiguous run; message::read/length over every fragment list of lengths 0..8 (10) and "
